@@ -98,9 +98,15 @@ func buildPureContainer(cfg pureCfg) *restful.Container {
 }
 
 func pureKeys(r *rand.Rand) []pureKey {
-	keys := []pureKey{}
+	// preflights to URLs with different routable method sets (computed methods must not stick)
+	keys := []pureKey{
+		{M: "OPTIONS", Path: "/a/1", Origin: "http://a.com", Acrm: "PUT"},
+		{M: "OPTIONS", Path: "/b/u", Origin: "http://a.com", Acrm: "PUT"},
+		{M: "OPTIONS", Path: "/b/u/12", Origin: "http://b.org", Acrm: "POST"},
+		{M: "OPTIONS", Path: "/a/lit", Origin: "http://b.org", Acrm: "GET", AE: "gzip"},
+	}
 	paths := []string{"/a/1", "/a/2", "/a/lit", "/a/7/sub/x/y", "/a/8/sub/z", "/b/u", "/b/v", "/b/u/12", "/nope", "/a/1/"}
-	for len(keys) < 16 {
+	for len(keys) < 18 {
 		k := pureKey{M: pick(r, []string{"GET", "GET", "GET", "PUT", "OPTIONS", "POST"}), Path: pick(r, paths),
 			Origin: pick(r, []string{"", "", "http://a.com", "http://b.org"}), AE: pick(r, []string{"", "gzip", "deflate"}),
 			Acc: pick(r, []string{"", "application/json", "text/plain"})}
